@@ -38,7 +38,7 @@ fn intlit(i: i64) -> String {
 /// snippet (with continuation hole `K`) and the line it must print
 fn text_row(row: &Value) -> (String, String) {
     let k = row["k"].as_str().unwrap();
-    let s = if k == "parse_int" { text_of(&row["s"], &VOCAB) } else if k == "from_codepoint" { String::new() } else { text_of(&row["s"], &ALPHA) };
+    let s = if k == "parse_int" { text_of(&row["s"], &VOCAB) } else if k == "from_codepoint" || k == "from_codepoint_wide" { String::new() } else { text_of(&row["s"], &ALPHA) };
     let wl = |t: &str| format!("! (stdio/write_line) {t} {{ @@K@@ }}");
     match k {
         | "len" | "bytelen" => {
@@ -81,6 +81,15 @@ fn text_row(row: &Value) -> (String, String) {
             let n = row["n"].as_i64().unwrap();
             let want = if row["some"].as_bool().unwrap() { format!("{}:{n}", row["bytes"]) } else { "N".into() };
             (format!("! (char/from_codepoint) OS {} {{ {} }} {{ fn (c : Char) => do s <- ! (char/to_string) c; do b <- ! (string/byte_length) s; do m <- ! (char/codepoint) c; do t1 <- ! (int64/to_string) b; do t2 <- ! (int64/to_string) m; do r <- ! (string/append) t1 \":\"; do r2 <- ! (string/append) r t2; {} }}", intlit(n), wl("\"N\""), wl("r2")), want)
+        }
+        | "from_codepoint_wide" => {
+            let w = &row["w"];
+            let g = |k: &str| w[k].as_i64().unwrap() as i128;
+            let mag: i128 = ((g("a") * 65536 + g("b")) * 65536 + g("c")) * 65536 + g("d");
+            let n: i128 = if w["neg"].as_bool().unwrap() { -mag } else { mag };
+            let lit = if n < 0 { format!("({n})") } else { format!("{n}") };
+            let want = if row["some"].as_bool().unwrap() { format!("{}:{n}", row["bytes"]) } else { "N".into() };
+            (format!("! (char/from_codepoint) OS {lit} {{ {} }} {{ fn (c : Char) => do s <- ! (char/to_string) c; do b <- ! (string/byte_length) s; do m <- ! (char/codepoint) c; do t1 <- ! (int64/to_string) b; do t2 <- ! (int64/to_string) m; do r <- ! (string/append) t1 \":\"; do r2 <- ! (string/append) r t2; {} }}", wl("\"N\""), wl("r2")), want)
         }
         | other => panic!("text row {other}"),
     }
